@@ -13,14 +13,18 @@ CHECKS = {
         level='fault_enumeration',
         technique='runtime monitoring under fault injection: record-level '
                   'MITM tamper operators on an in-memory wire, prefix oracle '
-                  'fed by an independent wire tap, owner error-class check',
+                  'fed by an independent wire tap, owner error-class check, '
+                  'runtime contract on MAC.verify',
         text='For every negotiable cipher and MAC class and both directions, '
              'tamper operators (bit flips per field, truncation+EOF, drop, '
              'duplicate, swap, splice, insert) are applied to encrypted '
              'records at several positions; the receiving application must '
              'have been handed exactly the bytes carried by records before '
              'the altered one, and its owner must be told an integrity/'
-             'protocol error (plain loss only for stalls).',
+             'protocol error (plain loss only for stalls); the sender of an '
+             'altered stream must not see a clean close; a contract on the '
+             'real MAC check (full-length tag equal to sign()) is active in '
+             'every execution; prefix truncation must be noticed.',
         note='trusted: harness MITM, refssh tap for record contents; UMAC '
              'cases judged by prefix-ness + error class only',
         design='3/C01'),
@@ -72,7 +76,9 @@ CHECKS = {
              'parsers are executed under a linear work budget; nothing may '
              'reach the loop exception handler, owners must be told once, '
              'a bystander connection must keep working, parsers may only '
-             'raise their documented error.',
+             'raise their documented error; applications write multi-byte '
+             'text and read lines, a client with X11 forwarding gets '
+             'hostile connection-setup prefixes.',
         note='trusted: budget constants (400k calls + 400/byte; benign '
              'sessions need < 20k); only library code is counted',
         design='3/C10'),
@@ -124,7 +130,9 @@ CHECKS = {
              'is a host-key/kex error and the tap shows no NEWKEYS / service '
              '/ auth request from the client; servers that sign with another '
              'key, another hash or present altered certificates are '
-             'refused.',
+             'refused; one loaded known_hosts object decides several '
+             'connections as fresh ones would; a destination behind a jump '
+             'host is judged by its name only.',
         note='trusted: the 60-line reference trust model; fixed clock '
              'substituted for asyncssh.public_key.time',
         design='3/C04'),
@@ -141,7 +149,9 @@ CHECKS = {
              'credential event of its own; clean valid credentials are '
              'admitted; nothing of the connection protocol is accepted '
              'before success; restrictions enforced afterwards equal those '
-             'of the accepted credential.',
+             'of the accepted credential (authorized_keys options and '
+             'certificate permit sets, probed behaviourally); an agent that '
+             'declines to sign does not stop the next valid key.',
         note='trusted: the reference model treats application validators as '
              'the authority; reference peer signs deliberately wrong data',
         design='3/C05'),
@@ -227,7 +237,8 @@ CHECKS = {
              'recursive SFTP get/mget and SCP downloads from hostile peers, '
              'is resolved to where the kernel would go and must lie inside '
              'the root / the destination; secrets outside must never be '
-             'returned and nothing outside may change.',
+             'returned and nothing outside may change (also with '
+             'preserve=True and a destination the call creates).',
         note='trusted: vf/fsmon.py (audit events + wrappers); modifying '
              'calls outside the allowed root are recorded and then blocked, '
              'because the hostile workload runs in the checking process',
@@ -318,7 +329,8 @@ CHECKS = {
              'nesting, tokens, ${ENV}) resolve in asyncssh to what ssh -G '
              'prints for 44 options; server configs follow the first-match '
              'model and a %u template is never expanded with a user name '
-             'that could change the meaning of the path.',
+             'that could change the meaning of the path; a resolution '
+             'through a reused options object equals the fresh one.',
         note='trusted: OpenSSH 9.2 ssh -G; no sshd is available, so the '
              'server half rests on the reference model',
         design='3/C18'),
@@ -329,9 +341,10 @@ CHECKS = {
                   'and wire chunkings, run()/redirect/drain oracles',
         text='read/readexactly/readuntil/readline results are decided by a '
              'reference reader and compared across packetisations; '
-             'run()/wait() output completeness, redirection targets, '
-             'drain() return condition and signal position in the stream '
-             'are checked.',
+             'run()/wait() output completeness, redirection targets (set '
+             'at creation or late, files, pipes, async files, other '
+             'processes in both directions), drain() return condition and '
+             'signal position in the stream are checked.',
         note='trusted: the 60-line reference reader (leftmost regex match on '
              'the whole remaining stream)',
         design='3/C19'),
